@@ -435,7 +435,16 @@ def check_write_back(ctx):
                f'the one that selected the rows: {detail}')
         # the per-row values zipped alongside come from the election
         # result of the same iteration
-    # (c) row sets stored for the next level are chosen_idx[mask]
+    # (c) row sets stored for the next level are chosen_idx[mask].  The
+    # table of row sets is whatever two-level container the selecting
+    # index is read from (`idx = table[level][node]`)
+    tables = set()
+    for d in rd.reaching(idx_var, sel[0].id):
+        v = getattr(d, 'value', None)
+        if d.kind == 'assign' and isinstance(v, ast.Subscript) \
+                and isinstance(v.value, ast.Subscript) \
+                and isinstance(v.value.value, ast.Name):
+            tables.add(v.value.value.id)
     n_sets = 0
     for node in cfg.nodes:
         if node.kind != 'stmt' or node.id not in rd.live:
@@ -446,7 +455,7 @@ def check_write_back(ctx):
             if isinstance(tg, ast.Subscript) and isinstance(
                     tg.value, ast.Subscript) and isinstance(
                         tg.value.value, ast.Name) \
-                    and tg.value.value.id == 'previously_assigned':
+                    and tg.value.value.id in tables:
                 n_sets += 1
                 t = ex.expand(st.value, node.id)
                 ok = False
@@ -476,7 +485,8 @@ def check_write_back(ctx):
                        "chunk's coordinates")
     if n_sets == 0:
         ctx.fail(rule, 'row-sets', fi.loc(),
-                 'no store into previously_assigned[level][node] found')
+                 'no store into the table of row sets (the container the '
+                 'selecting index is read from) found')
 
 
 def _result_var(fi, cfg, rd):
